@@ -106,6 +106,14 @@ def r2_offset(R, sh: SolverShape) -> None:
         f'offset copy is not `series[t] = series[t + offset]`: `{cp.node.label()}`',
         where=sh.where(cp.node),
     )
+    # (a2) the check values used as the starting point are read after the seeding copy
+    firsts = [n for n in sh.cfg.nodes if n.kind == 'stmt' and isinstance(n.ast, ast.Assign) and isinstance(n.ast.value, ast.Call)
+              and dotted(n.ast.value.func) == 'get_check_values' and not sh.in_loop(n)]
+    for n in firsts:
+        R.check(not sh.cfg.reaches(n.id, cp.node.id), sh.q, 'offset-copy-before-first-read',
+                'the starting check values are read after the offset copy (pass 1 is compared with the seeded values)',
+                f'`{n.label()[:50]}` is taken before the offset copy: the first pass would be compared with the values from before seeding',
+                where=sh.where(n))
     # (b) iterated over self.endogenous
     lp = [sh.cfg.nodes[i] for i in cp.node.loops]
     it_ok = bool(lp) and lp[-1].kind == 'for' and text(lp[-1].ast.iter) in ('self.endogenous', "self.__dict__['endogenous']")
@@ -417,6 +425,13 @@ def r8_hooks(R, sh: SolverShape) -> None:
             'the loop can be left on the converged branch without calling solve_t_after', where=sh.where(conv))
 
 
+def r8b_wrappers_keep_hooks(R) -> None:
+    """'The hooks run exactly once' for every model: a mixin that wraps the hook methods must always call
+    through to the wrapped hook (C17.R1 owns the detail)."""
+    from rules import c17
+    c17.r1_transparent(R)
+
+
 def r9_solve_period(R) -> None:
     q = 'fsic.core.interfaces.SolverMixin.solve_period'
     fi = R.repo.func(q)
@@ -502,7 +517,7 @@ def run(R) -> None:
     R.rule('C02.R5', lambda: r5_convergence(R, sh))
     R.rule('C02.R6', lambda: r6_exit_table(R, sh))
     R.rule('C02.R7', lambda: r7_definite_assignment(R, shapes))
-    R.rule('C02.R8', lambda: r8_hooks(R, sh))
+    R.rule('C02.R8', lambda: (r8_hooks(R, sh), r8b_wrappers_keep_hooks(R)))
     R.rule('C02.R9', lambda: r9_solve_period(R))
 
 
